@@ -156,6 +156,11 @@ def NamesOK (lines : List Line) : Prop :=
 theorem namesOK_cons {l : Line} {lines : List Line} (h : NamesOK (l :: lines)) : NamesOK lines :=
   fun n hh hm => h n hh (List.mem_cons_of_mem _ hm)
 
+/-- result of the search: the default, or start index + offset -/
+def pick (d i : Nat) : Option Nat → Nat
+  | none => d
+  | some j => i + j
+
 theorem searchSlots_replicate (os : Str) (d k i : Nat) :
     searchSlots os d (List.replicate k none) i = pure d := by
   induction k generalizing i with
@@ -165,18 +170,18 @@ theorem searchSlots_replicate (os : Str) (d k i : Nat) :
 theorem searchSlots_eq (lines : List Line) (hn : NamesOK lines) (os : Str) (hos : NulFree os)
     (d k i : Nat) :
     searchSlots os d (lines.map slotOf ++ List.replicate k none) i =
-      pure (match findIdx lines os with | none => d | some j => i + j) := by
+      pure (pick d i (findIdx lines os)) := by
   induction lines generalizing i with
-  | nil => simp [searchSlots_replicate, findIdx]
+  | nil => simp [searchSlots_replicate, findIdx, pick]
   | cons l rest ih =>
     have ih' := ih (namesOK_cons hn) (i + 1)
     cases l with
     | blank =>
       simp only [List.map_cons, slotOf, List.cons_append, searchSlots, findIdx, ih']
-      cases findIdx rest os <;> simp <;> (congr 1; ac_rfl)
+      cases findIdx rest os <;> simp [pick] <;> (congr 1; ac_rfl)
     | missing =>
       simp only [List.map_cons, slotOf, List.cons_append, searchSlots, findIdx, ih']
-      cases findIdx rest os <;> simp <;> (congr 1; ac_rfl)
+      cases findIdx rest os <;> simp [pick] <;> (congr 1; ac_rfl)
     | opt n h =>
       have hnf : NulFree n := (hn n h (by simp)).2
       simp only [List.map_cons, slotOf, List.cons_append, searchSlots, findIdx,
@@ -185,14 +190,14 @@ theorem searchSlots_eq (lines : List Line) (hn : NamesOK lines) (os : Str) (hos 
       | false =>
         have hm : matchOpt ⟨n, h⟩ os = none := matchOpt_of_not_prefix (o := ⟨n, h⟩) hp
         simp only [hm, ih']
-        cases findIdx rest os <;> simp <;> (congr 1; ac_rfl)
+        cases findIdx rest os <;> simp [pick] <;> (congr 1; ac_rfl)
       | true =>
         obtain ⟨c, hc, hcase⟩ := slot_check n os h hos hp
         rcases hcase with ⟨hc0, hm⟩ | ⟨hce, hm⟩ | ⟨hc0, hce, hm⟩
-        · simp [hc, hc0, hm]
-        · simp [hc, hce, hm]
+        · simp [hc, hc0, hm, pick]
+        · simp [hc, hce, hm, pick]
         · simp only [hc, hm, ih']
-          cases findIdx rest os <;> simp [hc0, hce] <;> (congr 1; ac_rfl)
+          cases findIdx rest os <;> simp [hc0, hce, pick] <;> (congr 1; ac_rfl)
 
 /-! ## `findIdx` against the Spec's lookups -/
 
@@ -365,7 +370,7 @@ theorem regLines_ok (rest : List Line) : ∀ (done : List Line) (s : St),
       have hnot := wf_split hwf
       have hsearch : searchopt ⟨optarg, optind, false, false, cmdname, opts, nopts, optMissing, optDefault, optFound, packed⟩ n = pure optDefault := by
         simp only [searchopt, ho]
-        rw [searchSlots_eq done hdone n hn.2, hnot]
+        rw [searchSlots_eq done hdone n hn.2, hnot]; rfl
       have hset : (done.map slotOf ++ List.replicate (rest.length + 1) none).set done.length
           (some ⟨n, (cstr n).length, h⟩) = (done ++ [Line.opt n h]).map slotOf ++ List.replicate rest.length none := by
         have := set_append_length (done.map slotOf) none (some ⟨n, (cstr n).length, h⟩) (List.replicate rest.length none)
